@@ -127,6 +127,15 @@ func (e *env) get(name string) *zap.Logger {
 			cores = append(cores, zapcore.NewCore(enc, e.sink("T"+strconv.Itoa(i)), zap.DebugLevel))
 		}
 		l = zap.New(zapcore.NewTee(cores...), opts...)
+	case "Cy": // console logger whose level column holds a value rendered by user code (a Stringer that is a scheduling point)
+		cfg := consCfg()
+		cfg.EncodeLevel = func(lv zapcore.Level, enc zapcore.PrimitiveArrayEncoder) {
+			enc.AppendString(lv.CapitalString())
+			if ae, ok := enc.(zapcore.ArrayEncoder); ok {
+				_ = ae.AppendReflected(yieldStr{"lvl"})
+			}
+		}
+		l = zap.New(zapcore.NewCore(zapcore.NewConsoleEncoder(cfg), e.sink("Y"), zap.DebugLevel), opts...)
 	case "F":
 		l = e.get("J").WithOptions(zap.WithFatalHook(fatalRec{e}))
 	case "X": // failing sink: write errors go to the error output
@@ -147,6 +156,12 @@ type pair struct {
 	A int
 	B string
 }
+
+// yieldStr is rendered by fmt while the console encoder prints its columns;
+// its String method is a scheduling point (user code runs there).
+type yieldStr struct{ s string }
+
+func (y yieldStr) String() string { vsched.Yield(); return "<" + y.s + ">" }
 
 type failObj struct{}
 
@@ -264,6 +279,9 @@ var ops = []op{
 	}},
 	{"jcall", "JSON: caller only (first frame capture)", func(e *env) { e.get("Jcall").Warn("m-jcall") }},
 	{"ci", "console: plain fields", func(e *env) { e.get("C").Info("m-ci", zap.Int("a", 1), zap.String("b", "x")) }},
+	{"cy", "console: a column rendered by user code (Stringer that yields) while the line is assembled", func(e *env) {
+		e.get("Cy").Named("ny").Info("m-cy", zap.Int("a", 1))
+	}},
 	{"cns", "console: namespace left open, reflected value", func(e *env) {
 		e.get("C").Info("m-cns", zap.Namespace("n"), zap.Reflect("r", pair{3, "c"}), zap.Int("a", 1))
 	}},
